@@ -737,3 +737,27 @@ func callSitesOf(c *Ctx, fn *ssa.Function) []*ssa.Call {
 	}
 	return out
 }
+
+// curCtx: the context of the tree being analysed (set by loadRepo), for helpers that need call sites but have no Ctx at hand.
+var curCtx *Ctx
+
+// callCommonsOf: every call, go and defer statement whose static target is fn.
+func callCommonsOf(c *Ctx, fn *ssa.Function) []*ssa.CallCommon {
+	var out []*ssa.CallCommon
+	if c == nil {
+		return nil
+	}
+	for _, f := range c.Funcs {
+		if rootFn(f).Pkg != rootFn(fn).Pkg {
+			continue
+		}
+		instrs(f, func(b *ssa.BasicBlock, i int, in ssa.Instruction) {
+			if cc := callCommon(in); cc != nil {
+				if cal := staticCallee(cc); cal == fn || (cal != nil && origin(cal) == origin(fn)) {
+					out = append(out, cc)
+				}
+			}
+		})
+	}
+	return out
+}
